@@ -3132,6 +3132,25 @@ fn main() {
                     first = format!("mixed edit: {:?}", r);
                 }
             }
+            // varint boundaries in every numeric field, short and empty user keys, extreme sequence numbers
+            let nums = [0u64, 1, 127, 128, 16383, 16384, (1 << 32) - 1, 1 << 32, (1 << 63) - 1, 1 << 63, u64::MAX];
+            let keys: [&[u8]; 4] = [b"", b"\x00", b"\xff", b"ab"];
+            for (i, wal) in nums.iter().enumerate() {
+                for (j, size) in nums.iter().enumerate() {
+                    let num = nums[(i + j) % nums.len()];
+                    let (sk, lk) = (keys[(i + j) % 4], keys[(i + 2 * j + 1) % 4]);
+                    let (ss, ls) = (nums[(2 * i + j) % nums.len()] >> 8, nums[(i + 3 * j) % nums.len()] >> 8);
+                    edits += 1;
+                    let r = v::manifest_roundtrip(*wal, (i + j) % 7, num, *size, (sk, ss), (lk, ls), (j % 7, num));
+                    let ok = matches!(&r, Some((Some(w), lv, n, sz, s, l, 1)) if w == wal && *lv == (i + j) % 7 && *n == num && sz == size && s.0 == sk.to_vec() && s.1 == ss && l.0 == lk.to_vec() && l.1 == ls);
+                    if !ok {
+                        bad += 1;
+                        if first.is_empty() {
+                            first = format!("wal {} level {} file {} size {} keys {:?}@{} {:?}@{}: {:?}", wal, (i + j) % 7, num, size, sk, ss, lk, ls, r);
+                        }
+                    }
+                }
+            }
             println!("edits={}", edits);
             println!("mismatches={}", bad);
             println!("first_mismatch={}", first);
